@@ -1708,6 +1708,11 @@ impl proto::Peer for Peer {
             })?);
         }
 
+        // RFC 9113 8.5: a CONNECT request names its target in :authority.
+        if is_connect && !has_protocol && parts.authority.is_none() {
+            malformed!("malformed headers: missing authority in CONNECT");
+        }
+
         // A :scheme is required, except CONNECT.
         if let Some(scheme) = pseudo.scheme {
             if is_connect && !has_protocol {
